@@ -339,7 +339,8 @@ def agree_ref(ctx, fi, ref_src, title, what=('return', 'heap', 'substores'), rul
             b = e.data.get('bound')
             if b:
                 items = sorted(b.items())
-                return T.mk_tuple([T.mk_tuple([lift(k), v]) for k, v in items] + extra)
+                rv = e.data.get('recv')
+                return T.mk_tuple([rv if rv is not None else T.NONE] + [T.mk_tuple([lift(k), v]) for k, v in items] + extra)
             names = T.mk_tuple([lift(k) for k, _ in sorted(e.data['kwargs'])])
             return T.mk_tuple(list(e.data['args']) + [names] + [v for _, v in sorted(e.data['kwargs'])] + extra)
         _match_groups(ctx, rule, title, fi, 'call', selc(I, own), selc(IR, None),
